@@ -21,7 +21,8 @@ TECHNIQUE = (
 LEVEL_TEXT = (
     "Lean theorems over an arbitrary field with involution: for every expression tree (any depth) built from "
     "MatrixOperator / Diagonal (broadcasting, block) / ScaledIdentity / Identity / generic LinearOperator / "
-    "non-linear Operator leaves with +, -, unary -, scalar * and /, @, call-composition, .T, .H, .conj(), gram_op, "
+    "non-linear Operator leaves with +, -, unary -, scalar * and /, @, call-composition, .T, .H, .conj(), gram_op, and "
+    "VerticalStack / DiagonalStack of any number of such expressions, "
     "what scico constructs (generic closures and every closed-form override, for every class pair in both orders) "
     "evaluates to the dense matrix obtained by the same construction on the operands' matrices; rejection is "
     "characterised.  The model is tied to the code by an exhaustive class-pair table and random trees."
@@ -29,8 +30,8 @@ LEVEL_TEXT = (
 LEVEL_NOTE = (
     "Trusted: Lean kernel + Mathlib (axioms propext, Classical.choice, Quot.sound); jax.linear_transpose contract "
     "(automatic adjoints are the (conjugate) transpose of the dense matrix of the closure); real-number idealisation. "
-    "Outside the theorems: CircularConvolve/Convolve overrides, stacks and freeze (tied only), trees in which a real "
-    "part is taken (real->complex operators; covered by the executable model and the tie)."
+    "Outside the theorems: CircularConvolve/Convolve overrides, DiagonalReplicated, freeze, Function.slice/join (oracle "
+    "only), trees in which a real part is taken (real->complex operators; covered by the executable model and the tie)."
 )
 PROP_MODULES = ["Scico.Props.C05"]
 EXTRA_TARGETS = ["Drv.OpAlg"]
@@ -192,6 +193,8 @@ def correspond(ctx, model):
             bad += 1
             if bad >= 8:
                 break
+    # stacks with a Lean model (vstack / dstack of random expressions)
+    S.model_tie(ctx, env, model, ctx.n(40, 500))
     # random trees
     n = ctx.n(200, 2000)
     dmax = ctx.n(4, 7)
